@@ -499,6 +499,14 @@ fn gen_inst(rng: &mut Prng) -> Inst {
             let (c, _) = crate::clockgen::gen_clock(rng, &crate::clockgen::ClockCfg { n: n_clock, faults: vec![crate::clockgen::CF::Stall], rate_per_1000: 6, max_stretch: 4, long_stuck: true });
             clock = c;
         }
+        if rng.chance(1, 3) {
+            // a timer that counts in steps of q: every delta of this instance has the common factor q
+            let q = *rng.pick(&[2u64, 4, 8, 8, 10, 16, 25, 64, 1000]);
+            let t0 = clock.readings.first().copied().unwrap_or(0);
+            for r in clock.readings.iter_mut() {
+                *r = t0.wrapping_add(r.wrapping_sub(t0).wrapping_mul(q));
+            }
+        }
         return Inst { kind: Kind::Jitter, seed: None, clock: Some(clock), rounds, ops };
     }
     let kind = pick_det_kind(rng);
